@@ -154,6 +154,14 @@ pub fn pool_f64(seed: u64) -> Vec<f64> {
         pos.push(2f64.powi(k));
         pos.push(2f64.powi(-k));
     }
+    // powers of two +/- 1 and +/- the calendar span (integer narrowing of a day count wraps there)
+    for e in [15i32, 16, 31, 32, 33, 52, 53, 63, 64] {
+        let b = 2f64.powi(e);
+        for d in [1.0f64, 2.0, 3_652_058.0, 3_652_059.0, 719_162.0] {
+            pos.push(b - d);
+            pos.push(b + d);
+        }
+    }
     for k in 0..6u64 {
         // seed-derived finite doubles of moderate magnitude
         let r = splitmix(seed ^ (0xF640 + k));
